@@ -275,99 +275,24 @@ func tourDepositBurst(rt *rapid.T) *sim.ChainCase {
 	return cc
 }
 
-// ConflictCase: two chains share one pubkey cache (CopyState + Clone) and then include different
-// new validators at the same indices; each must end up with a context equal to a fresh one.
-type ConflictCase struct {
-	Conflict  bool   `json:"conflict"`
-	SeedM     uint64 `json:"seed_m"`
-	SeedS     uint64 `json:"seed_s"`
-	NewM      int    `json:"new_m"`
-	NewS      int    `json:"new_s"`
-	MaxDep    uint64 `json:"max_deposits"`
-	SlotsM    int    `json:"slots_m"`
-	SlotsS    int    `json:"slots_s"`
-	TopUpLate bool   `json:"top_up_late"`
-	SameKeys  bool   `json:"same_keys"` // the sibling replays the same deposit history later (cache already knows its keys at indices >= its count)
-}
+type ConflictCase = sim.ConflictCase
 
 func runConflict(r *report.Run, c *ConflictCase) *report.Failure {
-	far := refspec.FarFutureEpoch
-	o := map[string]uint64{"SLOTS_PER_EPOCH": 4, "TARGET_COMMITTEE_SIZE": 2, "MAX_COMMITTEES_PER_SLOT": 2, "SHUFFLE_ROUND_COUNT": 3,
-		"SLOTS_PER_HISTORICAL_ROOT": 8, "EPOCHS_PER_HISTORICAL_VECTOR": 8, "EPOCHS_PER_SLASHINGS_VECTOR": 4, "EPOCHS_PER_ETH1_VOTING_PERIOD": 1,
-		"MAX_SEED_LOOKAHEAD": 1, "SYNC_COMMITTEE_SIZE": 4, "EPOCHS_PER_SYNC_COMMITTEE_PERIOD": 2, "MAX_DEPOSITS": c.MaxDep, "MAX_ATTESTATIONS": 128}
-	cfgc := sim.ConfigCase{Family: "custom", ForkEpochs: [4]uint64{1, far, far, far}, Override: o}
-	g := sim.GenesisCase{N: 12, GenesisTime: 5, Eth1Seed: c.SeedM}
-	for i := 0; i < 12; i++ {
-		g.AmountClass = append(g.AmountClass, 0)
-		g.Eth1Cred = append(g.Eth1Cred, true)
+	res := sim.RunConflict(c)
+	r.Eval(int64(res.Evals))
+	if res.Sig != "" {
+		return report.Failf(res.Sig, "%s", res.Msg)
 	}
-	chain, err := sim.NewChain(cfgc.Build(), &g)
-	if err != nil {
-		return report.Failf("harness", "%v", err)
-	}
-	m, err := sim.NewLock(chain)
-	if err != nil {
-		return report.Failf("genesis/load", "%v", err)
-	}
-	off := uint64(1000)
-	if c.SameKeys {
-		off = 0
-	}
-	s, err := m.ForkLockKeys(off)
-	if err != nil {
-		return report.Failf("harness", "%v", err)
-	}
-	ctx := context.Background()
-	drive := func(l *sim.Lock, name string, seed uint64, nNew int, slots int) *report.Failure {
-		for k := 1; k <= slots; k++ {
-			p := &sim.BlockPlan{Seed: seed + uint64(k), AttMode: 1, Participation: 1000, SyncPm: 1000, Eth1Vote: 1}
-			if k == 1 {
-				for i := 0; i < nNew; i++ {
-					p.Queue = append(p.Queue, sim.DepPlan{Kind: 0, Amount: 0, Eth1: true})
-				}
-			}
-			if c.TopUpLate && k == slots-1 {
-				p.Queue = append(p.Queue, sim.DepPlan{Kind: 1, Amount: 1, Target: 12 + k%3})
-			}
-			res := l.StepBlock(ctx, l.St.Slot+1, p)
-			if res.BuildErr != nil || res.RefErr != nil {
-				return nil
-			}
-			if res.LibPanic {
-				return report.Failf("conflict/panic", "%s chain slot %d: %v %v", name, l.St.Slot, res.LibErr, res.SlotsErr)
-			}
-			if res.SlotsErr != nil || res.SlotsDiff != "" || res.LibErr != nil || res.Diff != "" {
-				// with a shared cache a wrong pubkey->index answer shows up as a state divergence (a deposit
-				// credited to the wrong validator): that is this property's subject, not C01's
-				return report.Failf("conflict/diverge", "%s chain (shares its pubkey cache with a sibling that has a different deposit history) at slot %d: %v %v %s %s", name, l.St.Slot, res.SlotsErr, res.LibErr, trunc(res.SlotsDiff), trunc(res.Diff))
-			}
-			r.Eval(1)
-			if d := l.CheckEpc(); d != "" {
-				return report.Failf("epc-stale:"+epcClass(d), "%s chain (shared cache, diverging deposit histories) at slot %d: %s", name, l.St.Slot, trunc(d))
-			}
-		}
-		return nil
-	}
-	if f := drive(m, "main", c.SeedM, c.NewM, c.SlotsM); f != nil {
-		return f
-	}
-	if f := drive(s, "sibling", c.SeedS, c.NewS, c.SlotsS); f != nil {
-		return f
-	}
-	// the main chain must be undisturbed by what the sibling did to the shared cache
-	if d := m.CheckEpc(); d != "" {
-		return report.Failf("epc-stale:"+epcClass(d), "main chain after the sibling included conflicting deposits: %s", trunc(d))
-	}
-	if f := drive(m, "main(after sibling)", c.SeedM+77, 0, 3); f != nil {
-		return f
-	}
-	if len(m.St.Validators) > 12 && len(s.St.Validators) > 12 {
-		if c.SameKeys {
+	if res.NonTrivial {
+		switch res.Class {
+		case "reordered":
+			r.Hit("shared-cache-same-deposits-reordered")
+		case "same-history":
 			r.Hit("shared-cache-sibling-behind-same-history")
-		} else {
+		default:
 			r.Hit("shared-cache-conflicting-deposit-histories")
 		}
-		r.NonTrivial(fmt.Sprintf("conflict|%d|%d|%d|%v", c.NewM, c.NewS, c.MaxDep, c.SameKeys))
+		r.NonTrivial(fmt.Sprintf("conflict|%d|%d|%d|%v|%v", c.NewM, c.NewS, c.MaxDep, c.SameKeys, c.Swapped))
 		r.Sample("conflicting-deposit-histories", func() any { return c })
 	}
 	return nil
@@ -393,7 +318,7 @@ func TestCheck(t *testing.T) {
 	if r.Replay != "" {
 		return
 	}
-	r.Mandatory("shared-cache-conflicting-deposit-histories", "shared-cache-sibling-behind-same-history", "event:deposit-added-validator", "event:validator-added-mid-epoch", "event:upgrade", "event:sync-rotation", "reload-continuation", "fork-sibling-advanced")
+	r.Mandatory("shared-cache-conflicting-deposit-histories", "shared-cache-sibling-behind-same-history", "shared-cache-same-deposits-reordered", "event:deposit-added-validator", "event:validator-added-mid-epoch", "event:upgrade", "event:sync-rotation", "reload-continuation", "fork-sibling-advanced")
 	n := 2
 	if r.Thorough() {
 		n = 10
@@ -409,10 +334,7 @@ func TestCheck(t *testing.T) {
 		nc = 60
 	}
 	if !r.Search(t, "tour-conflicting-deposit-histories", 101, nc, func(rt *rapid.T) (any, *report.Failure) {
-		c := &ConflictCase{Conflict: true, SeedM: rapid.Uint64().Draw(rt, "seed_m"), SeedS: rapid.Uint64().Draw(rt, "seed_s"),
-			NewM: rapid.IntRange(1, 4).Draw(rt, "new_m"), NewS: rapid.IntRange(1, 4).Draw(rt, "new_s"),
-			MaxDep: rapid.SampledFrom([]uint64{1, 2, 16}).Draw(rt, "max_dep"), SlotsM: rapid.IntRange(5, 9).Draw(rt, "slots_m"),
-			SlotsS: rapid.IntRange(5, 9).Draw(rt, "slots_s"), TopUpLate: rapid.Bool().Draw(rt, "top_up_late"), SameKeys: rapid.Bool().Draw(rt, "same_keys")}
+		c := sim.GenConflictCase(rt)
 		return c, runConflict(r, c)
 	}) {
 		return
